@@ -88,6 +88,20 @@ class Chunk:
             return And(ok, eq(idx, self.f.layout.ncards))
         raise Unsupported("substring test on file bytes")
 
+    def startswith(self, interp, prefix, *a):
+        """bytes.startswith on a header card: the END card starts with b'END'; so does any card whose key starts with
+        those letters - the cards the library itself writes/reads (tracked keys) do not, a user card may."""
+        if prefix == b'END' and not a:
+            lay = self.f.layout
+            ok, idx = self._card_index(interp)
+            if not hasattr(lay, 'end_prefixed'):
+                fn = z3.Function(lay.name + '_key_starts_with_END', z3.IntSort(), z3.BoolSort())
+                lay.end_prefixed = lambda i: Sym(fn(Sym.lift(i).as_int()), 'bool')
+                for k in lay.fields:
+                    CTX.side.append(Not(lay.end_prefixed(lay.pos[k])).t)
+            return And(ok, Or(eq(idx, lay.ncards), And(idx < lay.ncards, lay.end_prefixed(idx))))
+        raise Unsupported("startswith on file bytes")
+
     def decode(self, interp, *a):
         ok, idx = self._card_index(interp)
         if not interp.branch(And(ok, idx < self.f.layout.ncards)):
